@@ -138,6 +138,27 @@ impl C10Track {
     }
 }
 
+/// an operation that needs its (first) path to EXIST succeeded on a removed, not re-created
+/// entry: the entry was observed as present
+fn accepted_tombstone(tr: &C10Track, op: &Op, want: &Want, got: &Res) -> Option<(String, String)> {
+    if !matches!(want, Want::Err(_)) || !got.is_ok() {
+        return None;
+    }
+    let needs_existing = matches!(
+        op,
+        Op::Write { append: true, .. } | Op::OpenWrite { append: true, .. } | Op::RemoveFile(_) | Op::RemoveDir(_) | Op::ReadFile(..) | Op::ReadToString(_) | Op::OpenRead(..) | Op::CopyFile(..) | Op::MoveFile(..) | Op::CopyDir(..) | Op::MoveDir(..) | Op::SetTime(..) | Op::ReadDir(_)
+    );
+    if !needs_existing {
+        return None;
+    }
+    let c = op.paths().first().and_then(|p| canon(&p.s).ok())?;
+    if !tr.tomb.contains(&c) {
+        return None;
+    }
+    let by = tr.tomb_by.get(&c).copied().unwrap_or("?");
+    Some((format!("tombstone-accepted|{}|removed-by={}", op.kind(), by), format!("{:?} succeeded on '{}', which was removed by {} and not re-created", op, c, by)))
+}
+
 fn is_creation(op: &Op) -> bool {
     matches!(op, Op::CreateDir(_) | Op::Write { append: false, .. })
 }
@@ -177,7 +198,11 @@ pub fn run_c10(cfg: &RunCfg, trace: bool) -> RunOut {
                 // opened, then a write failed: a partially written file exists (legal); end the run
                 return true;
             } else if judge(want, got).is_some() {
-                // contract deviation: C09's business; model and implementation have diverged
+                if let Some((k, d)) = accepted_tombstone(&tr, op, want, got) {
+                    cx.violate(i, format!("C10|{}|{}", shape, k), format!("step {} {}", i, d));
+                    return true;
+                }
+                // any other contract deviation: C09's business; model and implementation have diverged
                 cx.out.count("c10.run_ended_by_contract_deviation");
                 return true;
             } else {
@@ -258,6 +283,9 @@ fn run_c10_async(cfg: &RunCfg, out: &mut RunOut) {
         } else if faulted && !got.session_ok() {
             return;
         } else if judge(&want, &got).is_some() {
+            if let Some((k, d)) = accepted_tombstone(&tr, op, &want, &got) {
+                out.violations.push(Violation { property: "C10".into(), key: format!("C10|{}|{}", shape, k), detail: format!("async overlay: step {} {}", i, d), step: i });
+            }
             return;
         } else {
             let (m0, m1) = (before.m[0].clone(), world.m[0].clone());
@@ -301,6 +329,201 @@ fn deep_hash(s: &Snap) -> (u64, Vec<String>) {
 }
 
 pub fn run_c08(cfg: &RunCfg, trace: bool) -> RunOut {
+    let mut out = run_c08_sync(cfg, trace);
+    // async port: the same history through AsyncOverlayFS stacks, every layer behind the async
+    // recorder; inside a tokio runtime (the async physical time setters need one)
+    if out.violations.is_empty() && out.harness_error.is_none() && cfg.seed % 3 == 0 && !spec_has_emb(&cfg.specs[0]) {
+        if let Some((key, detail, step)) = async_c08_mirror(cfg, &mut out) {
+            out.violations.push(Violation { property: cfg.property.clone(), key, detail, step });
+        }
+    }
+    // two threads: the tail of the history split over two callers of the same overlay, under
+    // seeded schedules (lock and layer-call granularity); no layer but the first may be written
+    if out.violations.is_empty() && out.harness_error.is_none() && cfg.seed % 4 == 1 && !spec_has_emb(&cfg.specs[0]) && !cfg.specs[0].has_phys() && cfg.fault.is_none() {
+        if let Some((key, detail, step)) = conc_c08_mirror(cfg, &mut out) {
+            out.violations.push(Violation { property: cfg.property.clone(), key, detail, step });
+        }
+    }
+    out
+}
+
+/// a writer and a remover of the same lower-layer file (optionally copied up first)
+fn targeted_race(spec: &crate::stack::Spec, rng: &mut crate::rng::Rng) -> Option<(Vec<Op>, Vec<Vec<Op>>)> {
+    let layers = match spec {
+        crate::stack::Spec::Ovl { layers } if layers.len() >= 2 => layers,
+        _ => return None,
+    };
+    let mut files: Vec<String> = vec![];
+    for l in layers.iter().skip(1) {
+        let m = l.view();
+        for (p, n) in m.t.iter() {
+            if matches!(n, Node::File(_)) && !files.contains(p) {
+                files.push(p.clone());
+            }
+        }
+    }
+    if files.is_empty() {
+        return None;
+    }
+    let f = files[rng.below(files.len())].clone();
+    let pl = |id: u32| Payload { id: 9000 + id, len: 3, utf8: true };
+    let mut setup = vec![];
+    if rng.pct(60) {
+        setup.push(Op::Write { p: P::new(&f), append: true, script: vec![WStep::Write(pl(1))] });
+    }
+    let writer = match rng.below(4) {
+        0 => Op::Write { p: P::new(&f), append: true, script: vec![WStep::Write(pl(2))] },
+        1 => Op::Write { p: P::new(&f), append: false, script: vec![WStep::Write(pl(3))] },
+        2 => Op::SetTime(P::new(&f), TField::Modified, 1_000_000 + rng.below(1000) as i64, 0),
+        _ => Op::CopyFile(P::new(&f), P::new(&format!("{}_c", f))),
+    };
+    let par = parent_of(&f);
+    let remover = match rng.below(if par.is_empty() { 2 } else { 3 }) {
+        0 => Op::RemoveFile(P::new(&f)),
+        1 => Op::MoveFile(P::new(&f), P::new(&format!("{}_m", f))),
+        _ => Op::RemoveDirAll(P::new(&par)),
+    };
+    let mut t0 = vec![writer];
+    if rng.pct(30) {
+        t0.push(Op::Write { p: P::new(&f), append: true, script: vec![WStep::Write(pl(4))] });
+    }
+    Some((setup, vec![t0, vec![remover]]))
+}
+
+fn conc_c08_mirror(cfg: &RunCfg, out: &mut RunOut) -> Option<(String, String, usize)> {
+    let self_contained = |o: &Op| !matches!(o, Op::OpenRead(..) | Op::OpenWrite { .. } | Op::HRead(..) | Op::HWrite(..) | Op::HSeek(..) | Op::HFlush(_) | Op::HDrop(_));
+    let ops: Vec<Op> = cfg.ops.iter().filter(|o| self_contained(o)).cloned().collect();
+    let mut rng = crate::rng::Rng::new(crate::rng::mix(cfg.seed, 0xC08C));
+    let targeted = if rng.pct(55) { targeted_race(&cfg.specs[0], &mut rng) } else { None };
+    let (setup, program) = match targeted {
+        Some(x) => {
+            out.count("probe.c08.conc_targeted_writer_vs_remover");
+            x
+        }
+        None => {
+            if ops.len() < 2 {
+                return None;
+            }
+            let tail = (2 + rng.below(4)).min(ops.len());
+            let (setup, conc) = ops.split_at(ops.len() - tail);
+            let mut program: Vec<Vec<Op>> = vec![vec![], vec![]];
+            for (k, op) in conc.iter().enumerate() {
+                // keep at least one call per thread
+                let t = if k == 0 { 0 } else if k == 1 { 1 } else { rng.below(2) };
+                program[t].push(op.clone());
+            }
+            (setup.to_vec(), program)
+        }
+    };
+    let ccfg = crate::conc::ConcCfg { property: "C08".into(), seed: cfg.seed, spec: cfg.specs[0].clone(), program, n_schedules: 0, schedule: None, sched_fs: true, setup };
+    let (lower_nodes, lower_pfx) = cfg.specs[0].lower_info();
+    let touches = |node: u16, p: &str| -> bool { lower_nodes.contains(&node) || lower_pfx.iter().any(|(id, pfx)| *id == node && (p == pfx || crate::model::is_under(p, pfx))) };
+    let shape = format!("{}/2threads", cfg.specs[0].shape());
+    out.count("probe.c08.conc_programs");
+    for k in 0..6u64 {
+        let pct = if k % 3 == 2 { Some(1 + (k as usize / 3) % 3) } else { None };
+        let run = match crate::conc::run_schedule(&ccfg, crate::rng::mix(cfg.seed, 0x5C0 + k), pct, None) {
+            Ok(r) => r,
+            Err(_) => return None,
+        };
+        if run.abort.is_some() {
+            out.count("probe.c08.conc_aborted");
+            continue;
+        }
+        out.count("probe.c08.conc_schedules");
+        out.log_hash = crate::rng::mix(out.log_hash, run.decisions.iter().fold(run.final_hash, |h, d| crate::rng::mix(h, *d as u64)));
+        for r in &run.log {
+            if !r.mutating {
+                continue;
+            }
+            let fastpath = matches!(r.method, "copy_file" | "move_file" | "move_dir");
+            if fastpath && !r.ok {
+                continue;
+            }
+            let (mp, mp2) = crate::stack::Built::mutated_paths(r.method, &r.path, r.path2.as_deref());
+            if touches(r.node, mp) || mp2.map(|p| touches(r.node, p)).unwrap_or(false) {
+                out.count("probe.c08.conc_lower_mutation_seen");
+                return Some((format!("C08|{}|lower-layer-mutating-call|{}", shape, r.method), format!("two threads {:?} after the sequential prefix of {} calls, schedule {:?}: {}('{}') was issued to node {}, which belongs to a lower layer", ccfg.program, ccfg.setup.len(), run.decisions, r.method, r.path, r.node), cfg.ops.len()));
+            }
+        }
+    }
+    None
+}
+
+fn spec_has_emb(s: &crate::stack::Spec) -> bool {
+    use crate::stack::Spec;
+    match s {
+        Spec::Emb => true,
+        Spec::Mem { .. } | Spec::Phys { .. } => false,
+        Spec::Alt { inner, .. } => spec_has_emb(inner),
+        Spec::Ovl { layers } => layers.iter().any(spec_has_emb),
+        Spec::OvlSub { base, .. } => spec_has_emb(base),
+    }
+}
+
+fn async_c08_mirror(cfg: &RunCfg, out: &mut RunOut) -> Option<(String, String, usize)> {
+    use crate::asyncsim::*;
+    use std::sync::atomic::Ordering;
+    let rt = tokio::runtime::Builder::new_current_thread().build().ok()?;
+    let _guard = rt.enter();
+    let ab = match abuild(&cfg.specs[0], crate::rng::mix(cfg.order_seed, 0), cfg.permute, crate::rng::mix(cfg.seed, 0xC08A), 15) {
+        Ok(ab) => ab,
+        Err(e) if e.starts_with("LIBRARY-PANIC") => return Some(("async|build|panic".into(), e, 0)),
+        Err(_) => return None,
+    };
+    out.count("probe.c08.async_runs");
+    let shape = format!("{}/async", cfg.specs[0].shape());
+    let (lower_nodes, lower_pfx) = cfg.specs[0].lower_info();
+    let touches = |node: u16, p: &str| -> bool { lower_nodes.contains(&node) || lower_pfx.iter().any(|(id, pfx)| *id == node && (p == pfx || crate::model::is_under(p, pfx))) };
+    let mut ax = AExec { root: ab.root.clone(), slots: Default::default() };
+    // one injected failure (k-th underlying call of one operation) in half of the runs
+    let mut rng = crate::rng::Rng::new(crate::rng::mix(cfg.seed, 0xFA08));
+    let fault_at = if rng.pct(50) && !cfg.ops.is_empty() { Some((rng.below(cfg.ops.len()), 1 + rng.below(8) as u64)) } else { None };
+    for (idx, op) in cfg.ops.iter().enumerate() {
+        let i = idx + 1;
+        let faulted = matches!(fault_at, Some((at, _)) if at == idx);
+        if let Some((_, k)) = fault_at.filter(|_| faulted) {
+            ab.ctl.calls.store(0, Ordering::SeqCst);
+            ab.ctl.fail_at.store(k, Ordering::SeqCst);
+        }
+        ab.ctl.take_rec();
+        ab.ctl.rec_on.store(true, Ordering::SeqCst);
+        ab.ctl.on.store(true, Ordering::SeqCst);
+        let mut st = PollStats::default();
+        let got = ax.exec(op, &mut st);
+        ab.ctl.on.store(false, Ordering::SeqCst);
+        ab.ctl.rec_on.store(false, Ordering::SeqCst);
+        ab.ctl.fail_at.store(0, Ordering::SeqCst);
+        let log = ab.ctl.take_rec();
+        out.add("probe.c08.async_calls_recorded", log.len() as u64);
+        if faulted && ab.ctl.faults_fired.load(Ordering::SeqCst) > 0 {
+            out.count("fault.c08.async_kth_call_failed");
+        }
+        if got.is_panic() {
+            return None; // C13's business
+        }
+        for r in &log {
+            let fastpath = matches!(r.method, "copy_file" | "move_file" | "move_dir");
+            if fastpath && !r.ok {
+                continue;
+            }
+            let (mp, mp2) = crate::stack::Built::mutated_paths(r.method, &r.path, r.path2.as_deref());
+            if touches(r.node, mp) || mp2.map(|p| touches(r.node, p)).unwrap_or(false) {
+                out.count("probe.c08.async_lower_mutation_seen");
+                return Some((format!("C08|{}|lower-layer-mutating-call|{}|during={}", shape, r.method, op.kind()), format!("step {} {:?} (async port{}): {}('{}') was issued to node {}, which belongs to a lower layer", i, op, if faulted { ", one injected failure" } else { "" }, r.method, r.path, r.node), i));
+            }
+            if op.is_observer() {
+                return Some((format!("C08|{}|observer-mutates|{}|during={}", shape, r.method, op.kind()), format!("step {} pure observer {:?} (async port) issued the mutating call {}('{}') to node {}", i, op, r.method, r.path, r.node), i));
+            }
+        }
+        if faulted {
+            break; // the history after a failed step is not the generated one any more
+        }
+    }
+    None
+}
+
+fn run_c08_sync(cfg: &RunCfg, trace: bool) -> RunOut {
     let mut lower_before: Vec<(u16, u64, Vec<String>)> = vec![];
     let mut started = false;
     run_loop(cfg, trace, false, &mut |cx, i, op, _before, _want, got, _snaps| {
